@@ -1,6 +1,8 @@
 import Qryn.Proofs.BatcherProgress
 import Qryn.Proofs.Handler
+import Qryn.Proofs.ErrorHandler
 import Qryn.Gen.Inserts
+import Qryn.Gen.ErrorHandler
 /-! # C01 — a push is acknowledged only after ClickHouse accepted all of its rows
 
 Property theorems only. Model: `Qryn.Ingest.Batcher` — `InsertServiceV2` as a state machine whose steps are
@@ -230,6 +232,162 @@ theorem push_ok_rows_inserted (k : Kind) (maxQueue svcNum attempts : Nat) (R : R
   rcases ack_sound k maxQueue svcNum R ops hW pre post (ids n) he with h | ⟨b, w, hb, hc⟩
   · exact Or.inl h
   · exact Or.inr ⟨b, w, by rw [he]; exact List.mem_append.mpr (Or.inl hb), hc⟩
+
+
+/-! ## the answer: `ErrorHandler` (error value → status, or nothing), `doPush`/`doParse` with error texts
+
+Model: `Qryn.Ingest.ErrorHandler`. `Gen.ErrorHandler` is regenerated from `writer/controller/builder.go`
+(`ErrorHandler` as an ordered rule table incl. the branch that returns WITHOUT writing a status — net/http then
+answers 200 —, `writeErrorResponse`, `Build`'s handler), from the pinned retry-go's `Error.Error()` (module cache)
+and from `writer/utils/errors/error.go` (codes of the typed errors). -/
+section answer
+open Qryn.Ingest.ErrorHandler
+
+/-- the rule table, the retry-go text format the theorems below are about are the ones the source has now -/
+theorem error_rules_eq_gen :
+    rules = Gen.ErrorHandler.rules ∧ retryFmt = Gen.ErrorHandler.retryFmt ∧
+    Gen.ErrorHandler.writeHeaderFirst = true ∧ Gen.ErrorHandler.handlerCallsErrorHandlerOnError = true := by
+  decide
+
+/-- **error_rules_safe** (decided on the regenerated table). No rule of `ErrorHandler` can turn an untyped error
+    whose text starts with retry-go's header `"All attempts fail:\n"` or with `"panic: "` — and continues
+    *arbitrarily* — into anything but a 4xx/5xx status: typed guards do not apply, a prefix guard must be
+    incompatible with both headers unless it writes an error status itself, every `Contains`/`HasSuffix` guard
+    must write an error status (the attempts' texts are the database's), and the tail writes one. -/
+theorem error_rules_safe :
+    tableSafe Gen.ErrorHandler.retryFmt.header Gen.ErrorHandler.rules = true ∧
+    tableSafe panicHeader Gen.ErrorHandler.rules = true := by
+  decide
+
+/-- every typed error the writer constructs carries a 4xx/5xx code -/
+theorem typed_codes_are_errors : ∀ c ∈ Gen.ErrorHandler.typedCodes, 400 ≤ c ∧ c ≤ 599 := by decide
+
+/-- **insert_failure_never_silent.** For EVERY number of attempts and EVERY list of per-attempt error texts
+    (whatever ClickHouse, the network or the service said — "connection reset by peer" included, anywhere), the
+    `retry.Error` that `doPush` hands back after exhausted retries is answered with status 500 by the regenerated
+    rule table: never the silent branch, never a success status. The same for a recovered panic of the push. -/
+theorem insert_failure_never_silent (errs : List Text) (t : Text) :
+    classify Gen.ErrorHandler.rules (retryErr Gen.ErrorHandler.retryFmt errs) = .status 500 ∧
+    classify Gen.ErrorHandler.rules (panicErr t) = .status 500 := by
+  rw [← error_rules_eq_gen.1, ← error_rules_eq_gen.2.1]
+  exact ⟨classify_pushErr_500 retryFmt (by decide) _ (Or.inl ⟨errs, rfl⟩),
+         classify_pushErr_500 retryFmt (by decide) _ (Or.inr ⟨t, rfl⟩)⟩
+
+/-- the same from the safety predicate alone, for any rule table (so for any future shape of `ErrorHandler`
+    that keeps `error_rules_safe` true): an error status, whatever the texts -/
+theorem insert_failure_error_status_of_safe (rs : List Rule) (f : RetryFmt)
+    (h : tableSafe f.header rs = true ∧ tableSafe panicHeader rs = true) (attempts : Nat) (p : PushT) (e : ErrVal)
+    (he : doPushT f attempts p = some e) : ∃ c, classify rs e = .status c ∧ 400 ≤ c ∧ c ≤ 599 :=
+  classify_pushErr f rs h.1 h.2 e (doPushT_isPushErr f attempts p e he)
+
+/-- **exhausted_retries_error_value.** If every one of the `attempts` promises is completed with an error
+    (texts `ts 0, ts 1, …`), `doPush` returns exactly the `retry.Error` of these texts, in order. -/
+theorem exhausted_retries_error_value (attempts : Nat) (p : PushT) (ts : Nat → Text) (hr : p.hasReq = true)
+    (hs : p.hasSvc = true) (h : ∀ k, k < attempts → p.out k = .fail (ts k)) :
+    doPushT Gen.ErrorHandler.retryFmt attempts p =
+      some (retryErr Gen.ErrorHandler.retryFmt ((List.range attempts).map ts)) := by
+  have := retryFromT_exhausted Gen.ErrorHandler.retryFmt p.out ts attempts 0 [] (by simpa using h)
+  simpa [doPushT, hr, hs] using this
+
+/-- **insert_failure_status_500** (handler level). If the parser reported no error and some `doPush` of some
+    chunk failed — exhausted retries with any error texts, or a panic — the handler answers 500. -/
+theorem insert_failure_status_500 (attempts okStatus : Nat) (chunks : List ChunkT)
+    (hparse : ∀ c ∈ chunks, ∃ ps, c = ChunkT.response ps)
+    (hfail : ∃ ps p, ChunkT.response ps ∈ chunks ∧ p ∈ ps ∧ doPushT Gen.ErrorHandler.retryFmt attempts p ≠ none) :
+    handlerT Gen.ErrorHandler.rules Gen.ErrorHandler.retryFmt attempts none okStatus chunks = .status 500 := by
+  rw [← error_rules_eq_gen.1, ← error_rules_eq_gen.2.1] at *
+  exact handlerT_push_failure retryFmt (by decide) attempts okStatus chunks hparse hfail
+
+/-- **answer_total.** The status decision is total and closed: with request-side errors (pre-request steps,
+    parser) of the shapes the writer can construct (`Shape`: untyped, `*UnMarshalError`, `*QrynError`, codes from
+    the regenerated list) the handler answers the route's ok status — only when no pre-request step failed and
+    `doParse` returned nil —, or 500, or the code of a typed request-side error, or nothing (→ 200) — the last
+    ONLY for an untyped request-side error whose text begins with "connection reset by peer" (the client went
+    away while its body was read), never for an error of the push path. `WriteHeader` never faults. -/
+theorem answer_total (attempts okStatus : Nat) (pre : Option ErrVal) (chunks : List ChunkT)
+    (hpre : ∀ e, pre = some e → Shape Gen.ErrorHandler.typedCodes e)
+    (hch : ∀ e, ChunkT.error e ∈ chunks → Shape Gen.ErrorHandler.typedCodes e) :
+    let a := handlerT Gen.ErrorHandler.rules Gen.ErrorHandler.retryFmt attempts pre okStatus chunks
+    (a = answerOf okStatus ∧ pre = none ∧ doParseT Gen.ErrorHandler.retryFmt attempts chunks [] = none) ∨
+    a = .status 500 ∨ (∃ c ∈ Gen.ErrorHandler.typedCodes, a = .status c) ∨
+    (a = .silent ∧ ∃ e, (pre = some e ∨ (pre = none ∧ ChunkT.error e ∈ chunks)) ∧ e.as = [] ∧
+        resetText.isPrefixOf e.text = true) := by
+  rw [← error_rules_eq_gen.1, ← error_rules_eq_gen.2.1]
+  exact handlerT_cases retryFmt (by decide) (fun c hc => by have := typed_codes_are_errors c hc; omega)
+    attempts okStatus pre chunks hpre hch
+
+/-- **success_status_implies_pushed.** If the client is told success (a status below 400; a handler that
+    writes nothing counts as 200) and no request-side error is of the "client went away" class, then no
+    pre-request step failed, the parser reported no error and EVERY `doPush` of every chunk ended without error —
+    hence (`status_ok_iff_all_chunks_ok`, `push_ok_rows_inserted`) the outcome-only handler model answers success
+    and the rows were in accepted INSERTs. -/
+theorem success_status_implies_pushed (attempts okStatus : Nat) (pre : Option ErrVal) (chunks : List ChunkT)
+    (hpre : ∀ e, pre = some e → Shape Gen.ErrorHandler.typedCodes e)
+    (hch : ∀ e, ChunkT.error e ∈ chunks → Shape Gen.ErrorHandler.typedCodes e)
+    (hgone : ∀ e, (pre = some e ∨ ChunkT.error e ∈ chunks) → e.as = [] → resetText.isPrefixOf e.text = false)
+    (hs : isSuccess (handlerT Gen.ErrorHandler.rules Gen.ErrorHandler.retryFmt attempts pre okStatus chunks) = true) :
+    pre = none ∧ (∀ c ∈ chunks, ∃ ps, c = ChunkT.response ps) ∧
+    (∀ ps, ChunkT.response ps ∈ chunks → ∀ p ∈ ps, doPushT Gen.ErrorHandler.retryFmt attempts p = none) ∧
+    handler attempts true (chunks.map ChunkT.erase) = [.success] := by
+  have key : pre = none ∧ doParseT Gen.ErrorHandler.retryFmt attempts chunks [] = none := by
+    rcases answer_total attempts okStatus pre chunks hpre hch with ⟨_, h1, h2⟩ | h | ⟨c, hc, h⟩ | ⟨_, e, hw, has, hp⟩
+    · exact ⟨h1, h2⟩
+    · rw [h] at hs; simp [isSuccess, observed] at hs
+    · rw [h] at hs
+      have := typed_codes_are_errors c hc
+      simp only [isSuccess, observed, decide_eq_true_eq] at hs
+      omega
+    · have : resetText.isPrefixOf e.text = false := hgone e (by rcases hw with h | ⟨_, h⟩; exact Or.inl h; exact Or.inr h) has
+      rw [this] at hp; cases hp
+  obtain ⟨h1, h2, h3⟩ := (doParseT_none_iff _ attempts chunks []).mp key.2
+  refine ⟨key.1, h1, h3, ?_⟩
+  rw [status_ok_iff_all_chunks_ok]
+  refine ⟨rfl, ?_, ?_⟩
+  · intro c hc
+    obtain ⟨ct, hct, rfl⟩ := List.mem_map.mp hc
+    obtain ⟨ps, rfl⟩ := h1 ct hct
+    exact ⟨_, rfl⟩
+  · intro ps hps p hp
+    obtain ⟨pts, hpts, rfl⟩ := erase_mem hps
+    obtain ⟨pt, hpt, rfl⟩ := List.mem_map.mp hp
+    exact doPushT_none_erase _ attempts pt (h3 pts hpts pt hpt)
+
+/-- without panics the text-carrying `doPush` and the outcome-only one agree on success -/
+theorem push_models_agree (attempts : Nat) (p : PushT) (hpf : p.panicFree) :
+    (doPushT Gen.ErrorHandler.retryFmt attempts p).isNone = ((doPush attempts p.erase).1 == .ok) :=
+  doPushT_erase_panicFree _ attempts p hpf
+
+/-- a `Contains` guard in the place of the `HasPrefix` one (seeded change C01-4) is rejected by the safety
+    predicate, and for a good reason: an INSERT that keeps failing with a reset connection would be answered
+    with nothing, i.e. 200 -/
+theorem contains_variant_counterexample :
+    let rs : List Rule := [.typed "*customErrors.UnMarshalError", .typed "customErrors.IQrynError",
+                           .text .contains resetText .silent, .otherwise (.write 500)]
+    tableSafe retryFmt.header rs = false ∧
+    isSuccess (handlerT rs retryFmt 2 none 204
+      [.response [⟨true, true, fun _ => .fail ([119, 114, 105, 116, 101, 58, 32] ++ resetText)⟩]]) = true := by
+  decide
+
+/-- non-vacuity: the text of a two-attempt failure is the one retry-go prints
+    ("All attempts fail:\n#1: EOF\n#2: EOF"), and the handler answers 500 -/
+example :
+    retryText retryFmt [[69, 79, 70], [69, 79, 70]] =
+      [65, 108, 108, 32, 97, 116, 116, 101, 109, 112, 116, 115, 32, 102, 97, 105, 108, 58, 10,
+       35, 49, 58, 32, 69, 79, 70, 10, 35, 50, 58, 32, 69, 79, 70] ∧
+    handlerT rules retryFmt 2 none 204 [.response [⟨true, true, fun _ => .fail [69, 79, 70]⟩]] = .status 500 := by
+  decide
+
+/-- the silent branch exists and is reachable by a request-side error only: a body read that fails with a text
+    beginning "connection reset by peer" is answered with nothing (200) — there is no client left to read it -/
+example : handlerT rules retryFmt 2 (some { text := resetText }) 204 [] = .silent := by decide
+
+/-- a typed parser error keeps its code -/
+example :
+    handlerT rules retryFmt 2 none 204
+      [.error { as := [("*customErrors.UnMarshalError", 400), ("customErrors.IQrynError", 400)], text := [] }]
+      = .status 400 := by decide
+
+end answer
 
 /-! ## non-vacuity -/
 
